@@ -11,11 +11,11 @@ use std::process::{Command, Stdio};
 use std::time::{Duration, Instant};
 
 pub const OPS: [&str; 7] = ["parse", "print", "debug", "clone", "compare", "drop", "evaluate"];
-pub const CONSTRUCTS: [&str; 25] = [
+pub const CONSTRUCTS: [&str; 26] = [
     "neg-chain", "not-chain", "add-left-deep", "and-left-deep", "eq-left-deep", "add-right-nested", "builtin-call-nested", "list-nested", "map-nested", "if-in-condition", "if-else-chain", "index-chain",
     "bitand-left-deep", "lt-left-deep", "contains-nested", "if-in-then", "some-none-nested", "list-flat", "map-flat", "string-long",
     // long but flat inputs whose processing must be iterative
-    "string-many-escapes", "in-flat-list", "flat-list-contains", "call-with-flat-list", "long-identifier",
+    "string-many-escapes", "string-many-unicode-escapes", "in-flat-list", "flat-list-contains", "call-with-flat-list", "long-identifier",
 ];
 /// constructs probed with `parse` only (their evaluation needs a ruleset or is the same tree as another construct),
 /// and rule texts probed through Rule::parse
@@ -47,7 +47,8 @@ pub fn text_for(construct: &str, n: usize) -> String {
         "list-flat" => format!("[{}i1]", "i1, ".repeat(n)),
         "map-flat" => format!("{{{}z: i1}}", (0..n).map(|i| format!("k{i}: i1, ")).collect::<String>()),
         "string-long" => format!("\"{}\"", "0123456789".repeat(n)),
-        "string-many-escapes" => format!("\"{}\"", "\\n\\u{41}\\\\".repeat(n)),
+        "string-many-escapes" => format!("\"{}\"", "\\n\\t\\\\".repeat(n)),
+        "string-many-unicode-escapes" => format!("\"{}\"", "\\u{41}".repeat(n)),
         "in-flat-list" => format!("i0 in [{}i1]", "i1, ".repeat(n)),
         "flat-list-contains" => format!("[{}i1] contains i0", "i1, ".repeat(n)),
         "call-with-flat-list" => format!("some([{}i1])", "none, ".repeat(n)),
@@ -316,7 +317,7 @@ pub fn drive(tier: Tier) -> i32 {
         exhaustive_part: "the full grid operations x constructs x stacks (x profiles in the thorough tier)".into(),
         ..Default::default()
     };
-    fin.floors.push(floor(format!("cells explored: {}", results.len()), results.len() >= 7 * 25 * 2));
+    fin.floors.push(floor(format!("cells explored: {}", results.len()), results.len() >= 7 * 26 * 2));
     fin.extras.insert("threshold_table".into(), json!(table));
     fin.extras.insert("cells_crashing".into(), json!(crashing));
     fin.extras.insert("cells_surviving_1e5".into(), json!(results.iter().filter(|r| r.crashed_at.is_none() && r.survived >= 100_000).count()));
